@@ -26,7 +26,14 @@ CLIP = 100000.0
 
 
 def make_case(rng, tier):
-    s1, s2, meta = nw.gen_pair(rng, tier)
+    if rng.random() < 0.3:
+        # polytope pairs in (near) contact: these drive GJK into 3- and 4-point simplices, i.e. into
+        # the triangle / tetrahedron arms of the simplex solver and the bit-set bookkeeping of the loop
+        s1, s2, meta = nw.gen_pair(rng, tier, kinds=["hull", "box", "mesh"], stream="gap",
+                                   gap=rng.choice([0.0, 1e-9, -1e-9, 1e-3, -1e-3, -0.1, -0.3, 0.05]), margin_prob=0.05)
+        meta["stream"] = "polytope-contact"
+    else:
+        s1, s2, meta = nw.gen_pair(rng, tier)
     kw = {}
     far = float(np.linalg.norm(nw.center_of(s1) - nw.center_of(s2))) - nw.feature_size(s1) - nw.feature_size(s2)
     if far > 250.0 or meta["stream"] == "wide":
